@@ -20,6 +20,7 @@ import shutil
 import sys
 import tempfile
 import traceback
+import types
 from pathlib import Path
 
 RECMOD = str(Path(__file__).resolve().parent / "recmod")
@@ -59,6 +60,7 @@ def run_session(files: dict, flags, *, keep_dir: str | None = None, config: dict
     obs: dict = {"tests": [], "import_error": None, "finish_error": None, "sites": {}, "problems": 0}
     tmp = Path(keep_dir or tempfile.mkdtemp(prefix="verif_inl_"))
     old_cfg = _config.config
+    loaded: list = []
     try:
         for name, content in files.items():
             p = tmp / name
@@ -77,7 +79,13 @@ def run_session(files: dict, flags, *, keep_dir: str | None = None, config: dict
             state.storage = DiscStorage(tmp / ".storage")
             try:
                 for filename in sorted(tmp.glob("*.py")):
-                    g: dict = {"__name__": filename.stem, "__file__": str(filename)}
+                    # a real module object (as pytest's import would create), registered while it is used:
+                    # dataclasses / pydantic / inspect.getmodule look the module up in sys.modules
+                    mod = types.ModuleType(filename.stem)
+                    mod.__file__ = str(filename)
+                    g = mod.__dict__
+                    sys.modules[filename.stem] = mod
+                    loaded.append(filename.stem)
                     try:
                         with _silence():
                             exec(compile(filename.read_text("utf-8"), str(filename), "exec"), g)
@@ -137,6 +145,8 @@ def run_session(files: dict, flags, *, keep_dir: str | None = None, config: dict
         return obs
     finally:
         _config.config = old_cfg
+        for name in loaded:
+            sys.modules.pop(name, None)
         if keep_dir is None:
             shutil.rmtree(tmp, ignore_errors=True)
 
